@@ -42,7 +42,8 @@ def worker(job):
     from harness import run_impl
 
     idx, save, local, pi, gate_ok = job[:5]
-    remote = len(job) > 5 and job[5]
+    remote = len(job) > 5 and job[5] is True
+    empty_feed = len(job) > 5 and job[5] == "empty"
     client = run_impl._imp()
     import boto3
 
@@ -65,7 +66,7 @@ def worker(job):
         case = gen.gen_election(rng, n_states=1, n_units=n_rep + 6, office="S", unit_type="county")
         base = case["baseline"][: n_rep + 6]
         case["baseline"] = base
-        case["feed"] = [gen.live_row(rng, b, 100 if i < n_rep else 30) for i, b in enumerate(base)]
+        case["feed"] = [] if empty_feed else [gen.live_row(rng, b, 100 if i < n_rep else 30) for i, b in enumerate(base)]
         est = ["margin"] if pi == "bootstrap" else ["turnout"]
         mp = {"fit_turnout_outlier_model": False, "fit_margin_outlier_model": False}
         if pi == "bootstrap":
@@ -76,7 +77,17 @@ def worker(job):
         if remote:
             # the baseline is not handed over in memory: the client fetches it from (fake) remote storage
             objects["data_county.csv"] = run_impl.frames(case)[0].to_csv(index=False)
-        r = run_impl.run_case(case, preprocessed_none=bool(remote))
+        r = run_impl.run_case(case, preprocessed_none=bool(remote), want_client=True)
+        # the national summary of a bootstrap run is one more table: written (only) where the other tables are written
+        sum_puts = None
+        if r["ok"] and pi == "bootstrap":
+            n0 = len(log)
+            try:
+                r["client"].get_national_summary_votes_estimates(None, 0, [0.9])
+                sum_puts = log[n0:]
+            except Exception as e:  # noqa: BLE001
+                sum_puts = [f"raised {type(e).__name__}: {str(e)[:80]}"]
+            del log[n0:]
         files = []
         for d, _, fs in os.walk(wd):
             for f in fs:
@@ -87,7 +98,7 @@ def worker(job):
         s3mod.boto3.client = orig
         shutil.rmtree(wd, ignore_errors=True)
     tables = list(r["tables"].keys()) if r["ok"] else []
-    return {"job": list(job), "ok": r["ok"], "exc": r["exc"], "puts": log, "files": sorted(files), "tables": tables}
+    return {"job": list(job), "ok": r["ok"], "exc": r["exc"], "puts": log, "files": sorted(files), "tables": tables, "sum_puts": sum_puts}
 
 
 def history_job(job):
@@ -185,10 +196,20 @@ def run(chk):
             for pi in ("nonparametric", "gaussian"):
                 jobs.append((idx, save, local, pi, True, True))
                 idx += 1
+    # ... and with a live feed that has no rows at all yet (polls just closed): the gate fails, the (empty) live results are still saved
+    for pi in ("nonparametric", "gaussian", "bootstrap"):
+        for save in (("results",), ("results", "data")):
+            jobs.append((idx, save, False, pi, False, "empty"))
+            idx += 1
     outs = core.pmap(worker, jobs)
     exprs = []
     for o in outs:
         idx, save, local, pi, gate_ok = o["job"][:5]
+        if o.get("sum_puts") is not None:
+            want_sum = [] if (local or "results" not in save) else [f"{ROOT}/{gen.ELECTION_ID}/predictions/S/county/nat_sum_data/current.csv"]
+            if o["sum_puts"] != want_sum:
+                chk.violation(f"configuration {o['job'][1:]}: the national summary call wrote {o['sum_puts']}, expected {want_sum}", {"kind": "c18", "job": o["job"]},
+                              {"kind": "summary-writes", "local": local})
         replay = {"kind": "c18", "job": o["job"]}
         chk.count({"save": save, "local": local, "pi": pi, "gate": gate_ok, "remote_baseline": len(o["job"]) > 5}, nontrivial=len(save) > 0,
                   sample={"save_output": save, "environment": "local" if local else "prod", "estimator": pi, "gate_passes": gate_ok, "puts": o["puts"][:4], "files": o["files"]})
